@@ -191,3 +191,15 @@ claim("C07", "other",
       "formats), the file's time step and the right orientation.",
       "Trusted: re, obspy (also used to write the binary test files), float32 rounding; GCF only from the one example file (obspy cannot write GCF).",
       "contract proof of the count check + structural obligations + bounded grammar-based native reader checks", "DESIGN.md 5/C07")
+
+claim("C14", "other",
+      "Lemmas proved: the normalised weights (hence every Monte-Carlo statistic) are unchanged when all weights are multiplied by a constant; the "
+      "zero-variance closed form of the weighted mean. The geometric half is outside what contracts over an SMT back end decide (planar "
+      "Voronoi / polygon clipping by scipy and shapely) and is carried by a bounded stand-in: weights equal the nearest-sensor area fractions of "
+      "the boundary's convex hull computed by an independent half-plane (Sutherland-Hodgman) clipping, are non-negative and sum to one, the "
+      "returned indices are the sensors strictly inside the boundary, all invariant under sensor order, translation up to 1e4 x the extent and "
+      "scaling by 1e-3..1e3. Bounded also: montecarlo_fn / _statistics equal the weighted mean and reliability-weighted standard deviation of "
+      "the realisations in the requested space for all four generator / spatial combinations, are reproducible for a seeded generator, "
+      "invariant to weight scale, and reduce to the closed form for zero standard deviations; unknown distribution names raise.",
+      "Trusted: scipy.spatial.Voronoi, shapely, numpy Generator; the clipping oracle. Bounds: 4-11 sensors inside 4 hull families, 2-7 generators x 1-400 realisations.",
+      "contract lemmas (z3) + bounded native comparison with an independent geometric oracle (geometry not within reach of contracts)", "DESIGN.md 5/C14")
